@@ -387,10 +387,10 @@ func runC14(r *core.Run) {
 		c14Thorough(r)
 	}
 	if r.Variant == "" {
-		for _, v := range []string{"encfirst+rev", "decfirst"} {
+		for _, v := range []string{"encfirst+rev@3", "decfirst@1"} {
 			r.RunVariantChild(v, 10*time.Minute, false)
 		}
-		r.Obs("fresh_process_variants", []string{"encfirst+rev", "decfirst"})
+		r.Obs("fresh_process_variants", []string{"encfirst+rev@3", "decfirst@1"})
 	}
 	r.Sample(map[string]any{"space": "srgb", "LineariseColor": color.RGBA64{R: 1000, G: 20000, B: 30000, A: 30000}, "result": spaceByName("srgb").Linearise(color.RGBA64{R: 1000, G: 20000, B: 30000, A: 30000})})
 	r.Sample(map[string]any{"space": "adobergb", "EncodeColor": color.RGBA64{R: 5, G: 77, B: 200, A: 201}, "result": spaceByName("adobergb").Encode(color.RGBA64{R: 5, G: 77, B: 200, A: 201})})
